@@ -137,10 +137,12 @@ def dyn_cases(rng, count):
         sps = rng.choice([100, 200])
         box = [f32(-6), f32(6), f32(-6), f32(6), f32(1.2e-3), f32(6.11e5)]
         angle = f32(2 * math.pi / sps)
-        mode = ["mod", "noise", "both"][k % 3]
+        # "ampl"/"phase": one kind of noise only (a source map cached on the other quantity goes stale while the
+        # displacement field the particles read is fresh)
+        mode = ["mod", "noise", "both", "ampl", "phase"][k % 5]
         # (amplitudes chosen so that one step displaces the charge by a fraction of a cell, differently in every step)
-        ps = f32(rng.uniform(0.01, 0.05)) if mode in ("noise", "both") else 0.0
-        as_ = f32(rng.uniform(0.01, 0.05)) if mode in ("noise", "both") else 0.0
+        ps = f32(rng.uniform(0.01, 0.05)) if mode in ("noise", "both", "phase") else 0.0
+        as_ = f32(rng.uniform(0.05, 0.3)) if mode in ("noise", "both", "ampl") else 0.0
         ma = f32(rng.uniform(0.02, 0.1)) if mode in ("mod", "both") else 0.0
         mt = f32(rng.uniform(0.05, 0.2)) if mode in ("mod", "both") else 0.0
         e = box + [angle, f32(4.5e8), f32(9e6 / (8e3 * sps)), f32(1e6), f32(4.5e4), ps, as_, ma, mt]
@@ -190,7 +192,7 @@ def explore(chk, harness, nblob, ntrack, sizes, tag):
     rng = lib.Rng(chk.seed, "C15/" + tag)
     brecs = blob_cases(rng, nblob, sizes)
     trecs = track_cases(rng, ntrack)
-    drecs = dyn_cases(rng, max(3, ntrack // 3))
+    drecs = dyn_cases(rng, max(5, ntrack // 2))
     optexts = {r["id"]: r["optext"] for r in brecs + trecs + drecs}
     A, B, mism, drift, san = corr.run_correspondence(chk, harness, {r["id"]: r["optext"] for r in brecs + drecs}, tag)
     mism = [(cid, d) for cid, d in mism if not any(l.startswith("skip") for l in B.get(cid, []))]
